@@ -110,7 +110,7 @@ func genCase(o GenOpts) func(t *rapid.T) Case {
 		}
 		c.Src, c.Mpm = GenProgram(t, o, c.Rsize)
 		c.Plans = genPlans(t)
-		c.HDL = rapid.Bool().Draw(t, "hdl1") && rapid.Bool().Draw(t, "hdl2") // a quarter of the faithful machines
+		c.HDL = rapid.Bool().Draw(t, "hdl1") && rapid.Bool().Draw(t, "hdl2") && rapid.Bool().Draw(t, "hdl3") // one in eight of the faithful machines
 		c.InVals = make([]uint64, 16)
 		for i := 11; i <= 14; i++ {
 			c.InVals[i] = rapid.Uint64().Draw(t, "inval")
@@ -581,7 +581,7 @@ func dedup(xs []string) []string {
 	return r
 }
 
-const ruleCommon = "; each program is compiled by the real bondgo CLI once per plan (3 plans: GOMAXPROCS in {1,2,4,8} x VERIF_BONDGO_SCHED), register size 8/16/32/64, every routine ends in an endless writing loop; oracles: (i) every run terminates (10 s; a goroutine dump classifies hangs), (ii) assembly and machine JSON byte-equal across plans, (iii) reference evaluator vs the machine on the Go simulator when all requested opcodes are faithful there (else label sem:needs-hdl); non-trivial = accepted, >=2 value variables, >=1 loop or branch, >=3 output values compared with the reference"
+const ruleCommon = "; each program is compiled by the real bondgo CLI once per plan (3 plans: GOMAXPROCS in {1,2,4,8} x VERIF_BONDGO_SCHED), register size 8/16/32/64, every routine ends in an endless writing loop; oracles: (i) every run terminates (10 s; a goroutine dump classifies hangs), (ii) assembly and machine JSON byte-equal across plans, (iii) reference evaluator vs the machine: on the Go simulator when all requested opcodes are faithful there; on the generated Verilog (real Write_verilog, in-house interpreter, r2o writes observed on _auxoK) when the machine also uses the RAM moves r2m/m2r, and for one in eight faithful machines as a guard of that path; channel opcodes: label sem:needs-hdl, not judged; non-trivial = accepted, >=2 value variables, >=1 loop or branch, >=3 output values compared with the reference"
 
 var Props = []*pbt.Entry{
 	pbt.Def("compile_faithful",
